@@ -16,7 +16,7 @@ use http::HeaderMap;
 use simcore::{drive, Drive, Sim};
 use tonic::Code;
 
-pub const GRID: u64 = 8 * 8 * 4 * 8;
+pub const GRID: u64 = 8 * 8 * 4 * 8 * 4;
 
 fn mask_to_vec(sim: &Sim, m: u64) -> Vec<Enc> {
     let mut v: Vec<Enc> = ALL_ENC.iter().copied().enumerate().filter(|(i, _)| m & (1 << i) != 0).map(|(_, e)| e).collect();
@@ -91,21 +91,24 @@ pub fn run_grid(sim: &Sim, idx: u64) {
     let ss = (cell / 8) % 8;
     let cs = (cell / 64) % 4;
     let ca = (cell / 256) % 8;
+    let shape_cell = ((cell / 2048) % 4) as usize;
     let cfg = CompCfg {
         server_accept: mask_to_vec(sim, sa),
         server_send: mask_to_vec(sim, ss),
         client_send: if cs == 0 { None } else { Some(ALL_ENC[cs as usize - 1]) },
         client_accept: mask_to_vec(sim, ca),
     };
-    let shape = if sim.chance(1, 2) { 0 } else { 2 };
-    let nresp = if shape == 2 { sim.range(1, 3) } else { 1 };
+    // all four call shapes: each goes through its own server::Grpc entry point
+    let shape = shape_cell;
+    let nresp = if shape >= 2 { sim.range(1, 3) } else { 1 };
+    let nreq = if shape == 1 || shape == 3 { sim.range(1, 2) } else { 1 };
     let plan = CallPlan {
         id: 1,
         shape,
         req_md: vec![],
-        req_msgs: vec![compressible(sim)],
+        req_msgs: (0..nreq).map(|_| compressible(sim)).collect(),
         tag: 0,
-        script: Script { msgs: (0..nresp).map(|_| compressible(sim)).collect(), disable_compression: shape == 0 && sim.chance(1, 4), src_pending: sim.pick(&[0u64, 30]), ..Default::default() },
+        script: Script { msgs: (0..nresp).map(|_| compressible(sim)).collect(), disable_compression: shape <= 1 && sim.chance(1, 4), src_pending: sim.pick(&[0u64, 30]), ..Default::default() },
         req_src_pending: 0,
         extra_polls: 0,
     };
@@ -145,7 +148,7 @@ pub fn run_grid(sim: &Sim, idx: u64) {
         if f.flag != want_flag {
             v5(sim, "client-request-compression-not-as-configured", format!("request message {i}: flag {}, client configured to send {:?}", f.flag, cfg.client_send));
         } else if let Some(e) = cfg.client_send {
-            if indep::inflate(e, &f.payload, 1 << 20).ok().as_deref() != Some(&plan.req_msgs[0][..]) {
+            if indep::inflate(e, &f.payload, 1 << 20).ok().as_deref() != plan.req_msgs.get(i).map(|m| &m[..]) {
                 v5(sim, "client-request-compression-not-as-configured", format!("request message {i} does not inflate with {} to the message sent", e.name()));
             }
         }
@@ -284,7 +287,9 @@ pub fn run_hostile_request(sim: &Sim, _idx: u64) {
     sim.sample(|| format!("hostile request: server {:?}/{:?}; grpc-accept-encoding={:?} grpc-encoding={:?} flag={}", cfg.server_accept, cfg.server_send, accept_hdr.as_ref().map(|a| String::from_utf8_lossy(a).into_owned()), enc_hdr.as_ref().map(|a| String::from_utf8_lossy(a).into_owned()), flag1 as u8));
     sim.ev(|| format!("config: server accept {:?} send {:?}", cfg.server_accept, cfg.server_send));
     let chunks = crate::seams::cut_bytes(sim, &frame, &[0]);
-    let Some(resp) = raw_call(sim, "C05", &mut server, http::Method::POST, "/sim.Raw/Unary", &headers, chunks.into_iter().map(Ev::Data).collect(), sim.pick(&[0u64, 30])) else {
+    let shape = sim.draw(4) as usize;
+    let path = format!("/sim.Raw/{}", c02::SHAPES[shape]);
+    let Some(resp) = raw_call(sim, "C05", &mut server, http::Method::POST, &path, &headers, chunks.into_iter().map(Ev::Data).collect(), sim.pick(&[0u64, 30])) else {
         return;
     };
     let entered = !handler.entered().is_empty();
@@ -308,7 +313,9 @@ pub fn run_hostile_request(sim: &Sim, _idx: u64) {
     }
     if flag1 && is_identity {
         sim.probe("compressed-flag-without-encoding");
-        if entered {
+        // (a streaming handler is entered before it reads the offending message; it must not *receive* it)
+        let received = handler.log(1).map(|l| l.msgs.len()).unwrap_or(0);
+        if (entered && (shape == 0 || shape == 2)) || received > 0 {
             v5(sim, "handler-invoked-for-ill-flagged-message", "message flagged compressed with no grpc-encoding reached the handler".into());
         }
         if st.as_ref().map(|s| s.0) != Some(Code::Internal as i32) {
